@@ -16,35 +16,19 @@ Definition data_after (r : @outcome QV (@pyval QV)) (i : nat) : option (list QV)
   end.
 
 (* ---- (1) "whatever y contained before": proximal_l2 in the branch step >= 1 is
-   `out.set_zero()`; on fewer than THRESHOLD_SMALL entries that is 0*out + 0*out ---- *)
+   `out.set_zero()`.  Before commit d3867d7 of /repo the small-size branch of _lincomb_impl
+   evaluated 0*out + 0*out and a NaN-filled out stayed NaN (finding set-zero-reads-out,
+   now fixed); with the regenerated [small_guarded] of the current source the same
+   witnesses give zeros, in place and out of place (uninitialised memory = None). ---- *)
 Definition prox_l2_big : @op QV := Op cls_ProximalL2_bigstep sp3 (RSp sp3) [] [] [] [].
-(* Stated for the variant of the small-size regime that the CURRENT source has
-   ([small_guarded], regenerated): unguarded -> the NaN survives; repaired -> zeros. *)
-Lemma prox_l2_old_out_survives :
-  match small_guarded with SvUnguarded => False | _ => True end \/
-  data_after (call junkQ prox_l2_big (VElem 0%nat) (Some (VElem 1%nat)) [(sp3, q3 1 2 3); (sp3, nan3)]) 1 = Some nan3
-  /\ data_after (call junkQ prox_l2_big (VElem 0%nat) (Some (VElem 1%nat)) [(sp3, q3 1 2 3); (sp3, q3 7 8 9)]) 1
-     = Some (q3 0 0 0).
-Proof. vm_compute. first [left; exact I | right; split; reflexivity]. Qed.
-(* the out-of-place call goes through _default_call_out_of_place, i.e. the same
-   code on an UNINITIALISED element: the result is whatever np.empty returned, times 0 *)
-Lemma prox_l2_oop_reads_uninitialised :
-  match small_guarded with SvUnguarded => False | _ => True end \/
-  match call junkQ prox_l2_big (VElem 0%nat) None [(sp3, q3 1 2 3)] with
-  | Ok (VElem r) s => data_after (Ok (VElem r) s) r = Some nan3
-  | _ => False
-  end.
-Proof. vm_compute. first [left; exact I | right; reflexivity]. Qed.
-(* and once the small-size regime skips zero terms, both calls give zeros whatever out held *)
-Lemma prox_l2_repaired_ignores_out :
-  match small_guarded with SvUnguarded => True | _ => False end \/
-    (data_after (call junkQ prox_l2_big (VElem 0%nat) (Some (VElem 1%nat)) [(sp3, q3 1 2 3); (sp3, nan3)]) 1
-      = Some (q3 0 0 0)
-    /\ match call junkQ prox_l2_big (VElem 0%nat) None [(sp3, q3 1 2 3)] with
-       | Ok (VElem r) s => data_after (Ok (VElem r) s) r = Some (q3 0 0 0)
-       | _ => False
-       end).
-Proof. vm_compute. first [left; exact I | right; split; reflexivity]. Qed.
+Lemma prox_l2_nan_out_is_overwritten :
+  data_after (call junkQ prox_l2_big (VElem 0%nat) (Some (VElem 1%nat)) [(sp3, q3 1 2 3); (sp3, nan3)]) 1
+    = Some (q3 0 0 0)
+  /\ match call junkQ prox_l2_big (VElem 0%nat) None [(sp3, q3 1 2 3)] with
+     | Ok (VElem r) s => data_after (Ok (VElem r) s) r = Some (q3 0 0 0)
+     | _ => False
+     end.
+Proof. split; vm_compute; reflexivity. Qed.
 
 (* ---- (2) elements owned by the operator must not be passed as x or out ---- *)
 Definition scal3 (c : Q) : @op QV := Op cls_ScalingOperator sp3 (RSp sp3) [Some c] [] [] [].
@@ -105,21 +89,19 @@ Definition parts_after (r : @outcome QV (list nat)) : option (list (list QV)) :=
   | Ok l s => Some (map (fun i => match rd s i with Some (_, d) => d | None => [] end) l)
   | Err _ _ => None
   end.
-(* ComponentProjectionAdjoint(rn(3)^2, 0)(x, out=y) with NaN-filled y: the other component keeps its NaN *)
-Lemma cpadj_old_out_survives :
-  match small_guarded with SvUnguarded => False | _ => True end \/
-  (match cpadj_ip 0 0%nat [1%nat; 2%nat] [(sp3, q3 1 2 3); (sp3, nan3); (sp3, nan3)] with
-   | Ok _ s => parts_after (Ok [1%nat; 2%nat] s) = Some [q3 1 2 3; nan3]
-   | Err _ _ => False
-   end
-   /\ parts_after (cpadj_oop 0 [sp3; sp3] 0%nat [(sp3, q3 1 2 3)]) = Some [q3 1 2 3; q3 0 0 0]).
-Proof. vm_compute. first [left; exact I | right; split; reflexivity]. Qed.
-(* ProductSpaceOperator([[2I, None], [None, None]])(x, out=y): the row without operator keeps the NaN of y *)
-Lemma pso_zero_row_old_out_survives :
+(* ComponentProjectionAdjoint(rn(3)^2, 0)(x, out=y) with NaN-filled y: the other component is zeroed *)
+Lemma cpadj_nan_out_is_overwritten :
+  match cpadj_ip 0 0%nat [1%nat; 2%nat] [(sp3, q3 1 2 3); (sp3, nan3); (sp3, nan3)] with
+  | Ok _ s => parts_after (Ok [1%nat; 2%nat] s) = Some [q3 1 2 3; q3 0 0 0]
+  | Err _ _ => False
+  end
+  /\ parts_after (cpadj_oop 0 [sp3; sp3] 0%nat [(sp3, q3 1 2 3)]) = Some [q3 1 2 3; q3 0 0 0].
+Proof. split; vm_compute; reflexivity. Qed.
+(* ProductSpaceOperator([[2I, None], [None, None]])(x, out=y): the row without operator is zeroed *)
+Lemma pso_zero_row_nan_out_is_overwritten :
   let ents := [{| en_row := 0; en_col := 0; en_op := scal3 2 |}] in
-  match small_guarded with SvUnguarded => False | _ => True end \/
-  (parts_after (pso_call junkQ ents [sp3; sp3] [sp3; sp3] [0%nat; 1%nat] (Some [2%nat; 3%nat])
-                  [(sp3, q3 1 2 3); (sp3, q3 4 5 6); (sp3, nan3); (sp3, nan3)]) = Some [q3 2 4 6; nan3]
-   /\ parts_after (pso_call junkQ ents [sp3; sp3] [sp3; sp3] [0%nat; 1%nat] None
-                  [(sp3, q3 1 2 3); (sp3, q3 4 5 6)]) = Some [q3 2 4 6; q3 0 0 0]).
-Proof. vm_compute. first [left; exact I | right; split; reflexivity]. Qed.
+  parts_after (pso_call junkQ ents [sp3; sp3] [sp3; sp3] [0%nat; 1%nat] (Some [2%nat; 3%nat])
+                 [(sp3, q3 1 2 3); (sp3, q3 4 5 6); (sp3, nan3); (sp3, nan3)]) = Some [q3 2 4 6; q3 0 0 0]
+  /\ parts_after (pso_call junkQ ents [sp3; sp3] [sp3; sp3] [0%nat; 1%nat] None
+                 [(sp3, q3 1 2 3); (sp3, q3 4 5 6)]) = Some [q3 2 4 6; q3 0 0 0].
+Proof. split; vm_compute; reflexivity. Qed.
